@@ -118,6 +118,12 @@ func init() {
 		unix, ok := m.timeParseUF(a[1].(string), a[0].(string))
 		return tuple{unix, ok}
 	})
+	vf("vfRand", func(m *Machine, fr *frame, a []value) value {
+		// a *rand.Rand whose Intn is the nondeterministic stub
+		p := new(value)
+		*p = zero(mustDeref(fr.fn.Signature.Results().At(0).Type()))
+		return p
+	})
 	vf("vfSharedMutable", func(m *Machine, fr *frame, a []value) value {
 		return m.sharedMutable(a[0], a[1])
 	})
@@ -705,7 +711,7 @@ func (m *Machine) placeholderFor(v value) string {
 	case sstr:
 		t = types.Typ[types.String]
 	}
-	tok := fmt.Sprintf("⟪s%d⟫", len(m.placeholders))
+	tok := fmt.Sprintf("ξs%dξ", len(m.placeholders))
 	for k, old := range m.placeholders {
 		if oi, ok := old.(iface); ok {
 			if ot, ok2 := oi.v.(*Term); ok2 && ot == v {
